@@ -25,9 +25,3 @@ impl<T> RefCell<Option<T>> {
     /// rule R30: the content moved out for the scope of a RefMut is moved back when the RefMut is dropped
     pub fn put_back(&mut self, x: Option<T>) ensures final(self).v == x { self.v = x; }
 }
-impl<T> RefCell<Vec<T>> {
-    /// RefCell::take: the vector moves out, an empty one stays
-    pub fn take(&mut self) -> (r: Vec<T>) ensures r@ == old(self).v@, final(self).v@.len() == 0 {
-        let mut x = Vec::new(); std::mem::swap(&mut self.v, &mut x); x
-    }
-}
